@@ -34,7 +34,7 @@ def render_item(it):
     if k == "q":
         return "?=%s\n" % a[0]
     if k == "vals":
-        return "v=%s w=%s E=%s a=%s\n" % (a[0], a[1], a[2], " ".join(a[3:]))
+        return "v=%s w=%s E=%s a=%s\n" % (a[0], a[1], a[2], a[3].join(a[4:]))
     if k == "decl":
         n, val, x, r = a
         if val == "U":
@@ -67,7 +67,7 @@ def render_item(it):
     if k == "dirs":
         return " ".join(a) + "\n"
     if k == "params":
-        return "%d:%s\n" % (len(a), " ".join(a))
+        return "%d:%s\n" % (len(a) - 1, a[0].join(a[1:]))
     if k == "optind":
         return "OPTIND=%s\n" % a[0]
     if k == "getopts":
@@ -355,9 +355,12 @@ def run(ck):
     quick = ck.tier == "quick"
     work = vlib.scratch("c30-")
     try:
-        runs = [("ShRunnerLife.%s.cfg" % ck.tier, None)]
+        # quick: all histories of length <= 2 over the whole library.  thorough: those, plus the histories of
+        # length <= 2 that also use Stmtwise(p), plus all histories of length 3 over a 24-statement
+        # sub-library (one statement per state component) under configuration 1.
+        runs = [("ShRunnerLife.quick.cfg", None)]
         if not quick:
-            runs.append(("ShRunnerLife.stmt.cfg", None))
+            runs += [("ShRunnerLife.stmt.cfg", None), ("ShRunnerLife.thorough.cfg", None)]
         nsim = 150 if quick else 3000
         runs.append(("ShRunnerLife.sim.cfg", nsim))
         files = []
@@ -390,12 +393,12 @@ def run(ck):
         ck.notes["histories_simulated_new"] = nsimnew
         ck.cov["exhaustive"] = True
         ck.cov["rule"] = ("one replay per history emitted by TLC (BFS: every history of Run(p)/Reset actions up to MaxHist over the "
-                          "44-statement library x configurations%s; plus %d simulated behaviours of length <= 6 with Stmtwise(p) "
+                          "45-statement library x configurations%s; plus %d simulated behaviours of length <= 6 with Stmtwise(p) "
                           "actions too); evaluations = observed API calls / call sequences compared with the spec (each history "
                           "call, probe, fresh probe, Reset+probe, whole file, statement-at-a-time); non-trivial = history whose "
                           "final abstract runner state differs from Init(cfg)" % (
-                              "" if quick else "; and every history of length <= 2 that also uses Stmtwise(p)", nsim))
-        ck.assumptions += ["statement library and probe of spec/ShRunnerLife.tla (44 statements, 21 probe lines, 4 configurations)",
+                              "" if quick else "; every history of length <= 2 that also uses Stmtwise(p); every history of length 3 over a 24-statement sub-library under configuration 1", nsim))
+        ck.assumptions += ["statement library and probe of spec/ShRunnerLife.tla (45 statements, 21 probe lines, 4 configurations)",
                            "external commands are never spawned (exec handler reports 'not found')",
                            "named deviations from bash inside the library (Dev_* in the spec) are modelled as the interpreter behaves; they are not the subject of C30"]
         # pass 2: replay in chunks
